@@ -187,7 +187,10 @@ type authResult struct {
 
 // wsUpgrade performs a raw WebSocket upgrade request and reports whether the
 // server switched protocols. The connection is closed at once.
-func wsUpgrade(addr string, header http.Header, query url.Values, cookie string) (authResult, error) {
+func wsUpgrade(addr, method string, header http.Header, query url.Values, cookie string) (authResult, error) {
+	if method == "" {
+		method = "GET"
+	}
 	c, err := net.DialTimeout("tcp", addr, 5*time.Second)
 	if err != nil {
 		return authResult{}, err
@@ -199,7 +202,7 @@ func wsUpgrade(addr string, header http.Header, query url.Values, cookie string)
 		path += "?" + query.Encode()
 	}
 	var sb strings.Builder
-	fmt.Fprintf(&sb, "GET %s HTTP/1.1\r\nHost: %s\r\nUpgrade: websocket\r\nConnection: Upgrade\r\nSec-WebSocket-Key: dGhlIHNhbXBsZSBub25jZQ==\r\nSec-WebSocket-Version: 13\r\nOrigin: http://localhost\r\n", path, addr)
+	fmt.Fprintf(&sb, method+" %s HTTP/1.1\r\nHost: %s\r\nUpgrade: websocket\r\nConnection: Upgrade\r\nSec-WebSocket-Key: dGhlIHNhbXBsZSBub25jZQ==\r\nSec-WebSocket-Version: 13\r\nOrigin: http://localhost\r\n", path, addr)
 	for k, vs := range header {
 		for _, v := range vs {
 			fmt.Fprintf(&sb, "%s: %s\r\n", k, v)
@@ -219,12 +222,18 @@ func wsUpgrade(addr string, header http.Header, query url.Values, cookie string)
 	return authResult{Admitted: strings.Contains(line, " 101 "), Status: strings.TrimSpace(line)}, nil
 }
 
-func smokeTest(addr string, header http.Header, query url.Values, cookie, body string) (authResult, error) {
+func smokeTest(addr, method string, header http.Header, query url.Values, cookie, body string) (authResult, error) {
+	if method == "" {
+		method = http.MethodPost
+	}
 	u := "http://" + addr + "/smoke-test"
 	if len(query) > 0 {
 		u += "?" + query.Encode()
 	}
-	req, _ := http.NewRequest(http.MethodPost, u, strings.NewReader(body))
+	req, err := http.NewRequest(method, u, strings.NewReader(body))
+	if err != nil {
+		return authResult{}, err
+	}
 	for k, vs := range header {
 		req.Header[k] = vs
 	}
@@ -242,6 +251,7 @@ func smokeTest(addr string, header http.Header, query url.Values, cookie, body s
 type carrierCase struct {
 	Name                  string
 	Header, Query, Cookie string // token per carrier ("" = carrier not used)
+	Method                string // "" = the usual one (GET for the upgrade, POST for /smoke-test)
 }
 
 func c15f(clause, trigger, format string, a ...any) *check.Finding {
@@ -279,9 +289,9 @@ func probeAuth(c *check.Ctx, t authTarget, endpoint string, cc carrierCase, st *
 	}
 	var res authResult
 	if endpoint == "ws" {
-		res, err = wsUpgrade(t.Addr, hdr, q, cc.Cookie)
+		res, err = wsUpgrade(t.Addr, cc.Method, hdr, q, cc.Cookie)
 	} else {
-		res, err = smokeTest(t.Addr, hdr, q, cc.Cookie, `{"endpoint":"http://127.0.0.1:9","token":"t","timeout":1000000}`)
+		res, err = smokeTest(t.Addr, cc.Method, hdr, q, cc.Cookie, `{"endpoint":"http://127.0.0.1:9","token":"t","timeout":1000000}`)
 	}
 	if err != nil {
 		// an oversized request may be cut by the server: that is a rejection
@@ -367,6 +377,17 @@ func carrierCases(tokens []tokenCase) []carrierCase {
 		carrierCase{Name: "combo/valid-header-bad-query", Header: valid, Query: bad},
 		carrierCase{Name: "combo/bad-everywhere", Header: bad, Query: bad, Cookie: bad},
 	)
+	// the same gate whatever the request method (a preflight, a HEAD, a verb the
+	// handlers do not expect): without a valid token nothing is admitted and the
+	// protected handler is not entered
+	for _, m := range []string{"OPTIONS", "HEAD", "GET", "POST", "PUT", "DELETE", "PATCH", "TRACE", "PROPFIND"} {
+		out = append(out,
+			carrierCase{Name: "method-" + m + "/none", Method: m},
+			carrierCase{Name: "method-" + m + "/bad-header", Method: m, Header: bad},
+			carrierCase{Name: "method-" + m + "/bad-query", Method: m, Query: bad},
+			carrierCase{Name: "method-" + m + "/bad-cookie", Method: m, Cookie: bad},
+		)
+	}
 	return out
 }
 
@@ -501,9 +522,9 @@ func partAuth(c *check.Ctx, a *acc) {
 						var res authResult
 						var err error
 						if (w+i/2)%4 == 0 {
-							res, err = wsUpgrade(t.Addr, hdr, nil, "")
+							res, err = wsUpgrade(t.Addr, "", hdr, nil, "")
 						} else {
-							res, err = smokeTest(t.Addr, hdr, nil, "", `{"endpoint":"http://127.0.0.1:9","token":"t","timeout":1000000}`)
+							res, err = smokeTest(t.Addr, "", hdr, nil, "", `{"endpoint":"http://127.0.0.1:9","token":"t","timeout":1000000}`)
 						}
 						if err != nil {
 							continue
